@@ -384,12 +384,21 @@ def main():
                 fq = ("/" + "/".join(path + (n,))) if path else n
                 dnames = tuple("/" + "/".join(p + (d,)) for p, d, _ in refs)
                 # the byte order the data happens to be stored in is not part of the type
-                ds.createVariable(fq, data=np.zeros(shape, dtype=rng.choice(["<", ">", "="]) + dt if dt[1] != "1" else dt), dims=dnames)
+                extra = {}
+                if spec and rng.random() < 0.3:          # Maps naming variables declared earlier
+                    extra["Maps"] = tuple(rng.sample([s_[0] if s_[0].startswith("/") else "/" + s_[0] for s_ in spec], 1))
+                if rng.random() < 0.3:                   # text that has to be escaped in XML
+                    extra["note"] = rng.choice(["m&s", "a<b", "x>y & z", "plain"])
+                ds.createVariable(fq, data=np.zeros(shape, dtype=rng.choice(["<", ">", "="]) + dt if dt[1] != "1" else dt), dims=dnames,
+                                  **extra)
                 spec.append((fq, dt, shape, list(dnames)))
         add_vars((), set())
         for g in rng.sample(GROUPS, rng.randint(0, 2)):
             gd = {n: rng.randint(1, 5) for n in rng.sample(SHORT, rng.randint(0, 2))}
-            ds.createGroup("/" + g, dimensions=dict(gd))
+            if gd or rng.random() < 0.5:
+                ds.createGroup("/" + g, dimensions=dict(gd))
+            else:
+                ds.createGroup("/" + g)            # a group that declares no dimensions at all
             gdims[(g,)] = gd
             add_vars((g,), set())
             if rng.random() < 0.5:
